@@ -92,7 +92,7 @@ func spec(p params) (*sess.Spec, error) {
 		} else {
 			sp = sess.FrostRefresh(k, ids)
 		}
-	case "frost-sign-taproot":
+	case "frost-sign-taproot", "frost-refresh-taproot":
 		o := sess.Run(sess.FrostKeygen(ids, p.T, true), int64(1+p.KeySet), "c09keys")
 		k := map[party.ID]*frost.TaprootConfig{}
 		for _, id := range ids {
@@ -102,7 +102,11 @@ func spec(p params) (*sess.Spec, error) {
 			}
 			k[id] = c
 		}
-		sp = sess.FrostSignTaproot(k, ids, msg)
+		if p.Proto == "frost-refresh-taproot" {
+			sp = sess.FrostRefreshTaproot(k, ids)
+		} else {
+			sp = sess.FrostSignTaproot(k, ids, msg)
+		}
 	case "doerner-keygen":
 		sp = sess.DoernerKeygen(ids[0], ids[1])
 	case "doerner-sign", "doerner-refresh":
@@ -282,6 +286,7 @@ func bases() []params {
 		{Proto: "frost-keygen", SID: sidp("a"), IDs: abc, T: 1},
 		{Proto: "frost-keygen-taproot", SID: sidp("a"), IDs: abc, T: 1},
 		{Proto: "frost-refresh", SID: sidp("a"), IDs: abc, T: 1},
+		{Proto: "frost-refresh-taproot", SID: sidp("a"), IDs: abc, T: 1},
 		{Proto: "frost-sign", SID: sidp("a"), IDs: abc, T: 1, Msg: "m"},
 		{Proto: "frost-sign-taproot", SID: sidp("a"), IDs: abc, T: 1, Msg: "m"},
 		{Proto: "doerner-keygen", SID: sidp("a"), IDs: ab, T: 1},
@@ -320,7 +325,24 @@ func main() {
 	}
 	n := 0
 	// (a) adversarial identifier sets with equal concatenations / shared prefixes
-	for _, pr := range [][2][]string{{{"a", "bc", "x"}, {"ab", "c", "x"}}, {{"a", "bc"}, {"ab", "c"}}, {{"a", "b", "c"}, {"ab", "c"}}, {{"a", "ab", "abc"}, {"a", "aab", "bc"}}} {
+	advPairs := [][2][]string{{{"a", "bc", "x"}, {"ab", "c", "x"}}, {{"a", "bc"}, {"ab", "c"}}, {{"a", "b", "c"}, {"ab", "c"}}, {{"a", "ab", "abc"}, {"a", "aab", "bc"}}}
+	// identifier sets that collide under a length prefix of w bytes that WRAPS (a count stored in too narrow an
+	// integer): X = "a"+L(1)+M and Y = M+L(1)+"n" with |M| = 2^(8w)-w, so that |X| and |Y| are 1 modulo 2^(8w);
+	// then L(|X|) X L(1) "n" and L(1) "a" L(|Y|) Y are the same bytes.  w = 1, 2; big and little endian.
+	for _, w := range []int{1, 2} {
+		for _, le := range []bool{false, true} {
+			one := make([]byte, w)
+			if le {
+				one[0] = 1
+			} else {
+				one[w-1] = 1
+			}
+			M := strings.Repeat("m", (1<<(8*uint(w)))-w)
+			X, Y := "a"+string(one)+M, M+string(one)+"n"
+			advPairs = append(advPairs, [2][]string{{X, "n", "x", "y"}, {"a", Y, "x", "y"}}, [2][]string{{X, "n"}, {"a", Y}})
+		}
+	}
+	for _, pr := range advPairs {
 		for _, proto := range []string{"xor", "frost-keygen", "doerner-keygen"} {
 			if proto == "doerner-keygen" && (len(pr[0]) != 2 || len(pr[1]) != 2) {
 				continue
@@ -336,13 +358,13 @@ func main() {
 			}
 			ta, _, ea := firstTag(A)
 			tb, _, eb := firstTag(B)
-			res.Case(fmt.Sprintf("tag|%s|%v|%v", proto, pr[0], pr[1]))
+			res.Case(fmt.Sprintf("tag|%s|%s|%s", proto, clipIDs(pr[0]), clipIDs(pr[1])))
 			if ea != nil || eb != nil {
 				res.Hard(fmt.Sprintf("tag: cannot start %v / %v: %v %v", A, B, ea, eb))
 				continue
 			}
 			if ta == tb {
-				res.Violate("same-tag|participants-with-equal-concatenation", fmt.Sprintf("%s sessions over %v and over %v have the same tag (protocol %q, ssid %s)", proto, pr[0], pr[1], ta.Protocol, ta.SSID),
+				res.Violate("same-tag|participants-with-equal-concatenation", fmt.Sprintf("%s sessions over %s and over %s have the same tag (protocol %q, ssid %s)", proto, clipIDs(pr[0]), clipIDs(pr[1]), ta.Protocol, ta.SSID),
 					map[string]interface{}{"a": A, "b": B})
 			}
 		}
@@ -406,6 +428,19 @@ func main() {
 		}
 	}
 	res.Finish()
+}
+
+// clipIDs prints identifier lists with long identifiers abbreviated.
+func clipIDs(ids []string) string {
+	var l []string
+	for _, id := range ids {
+		if len(id) > 24 {
+			l = append(l, fmt.Sprintf("%q...(%d bytes)...%q", id[:6], len(id), id[len(id)-6:]))
+		} else {
+			l = append(l, fmt.Sprintf("%q", id))
+		}
+	}
+	return "[" + strings.Join(l, " ") + "]"
 }
 
 func pairName(a, b string) string {
